@@ -20,4 +20,6 @@ def run(check):
     check.run_rule('C17.R1', lambda c: rule_cm_window(c, {'restore': None, 'typestate': None, 'usage': None, 'confined': 'C17.R1'}))
     check.run_rule('C17.R1b', lambda c: rule_recursion_guard_emptied(c, None, 'C17.R1'))
     check.run_rule('C17.R1c', lambda c: rule_shared_windows(c, 'C17.R1'))
+    from ..rules_modifiers import rule_cache_publication
+    check.run_rule('C17.R3', lambda c: rule_cache_publication(c, 'C17.R3'))
     check.run_rule('C17.R2', lambda c: rule_shared_state_inventory(c, 'C17.R2'))
